@@ -33,6 +33,7 @@ ASSUMPTIONS = [
     "score tolerance 1e-6 x (1 + |score|); alpha_ accepted when its oracle score is within that tolerance of the best",
     "sklearn.metrics and numpy lstsq/svd are trusted",
 ]
+RULE = RULE + " " + forms.RULE_SUFFIX
 SCORERS = ("neg_mean_squared_error", "neg_root_mean_squared_error", "r2", None)
 
 
